@@ -35,13 +35,15 @@ def diffstate(a, b):
     return out
 
 
-def run_engine(tier, cli_every=0):
+def run_engine(tier, cli_every=0, inline_updown=False):
     """returns (viols [(id, name)], observations list, npairs, info); with cli_every > 0 every cli_every-th pair is also run through the
     real CLI (`schema inspect` of the desired database -> HCL -> `schema apply --auto-approve` -> `schema diff`): info["cli"] = (viols, observations)"""
     b = vf.build_harness("cli", "engine")
     env = dict(os.environ)
     if cli_every:
         env.update(VERIF_ATLAS=vf.build_atlas(), VERIF_CLI_EVERY=str(cli_every))
+    if inline_updown:
+        env["VERIF_INLINE"] = "1"     # C17: up / down with an inspected inline-UNIQUE database as the desired state
     d = vf.scratch("eng")
     try:
         pairs, n = export_pairs(tier, d)
